@@ -69,7 +69,8 @@ impl Part for C01 {
         for suite in seal_suites() {
             for mode in MODES {
                 for &info_len in &infos {
-                    let shapes = if mode.has_psk() { psks.clone() } else { vec![(0, 0)] };
+                    // the crate accepts the empty bundle in the PSK modes (C15), so it is an input here too
+                    let shapes = if mode.has_psk() { [&psks[..], &[(0usize, 0usize)][..]].concat() } else { vec![(0, 0)] };
                     for (psk_len, psk_id_len) in shapes {
                         tag += 1;
                         let fill = if t { FILLS_ALL[(tag % 5) as usize] } else { FILLS_QUICK[(tag % 2) as usize] };
@@ -134,7 +135,9 @@ impl Part for C01 {
             }
         };
         // R1 in lock-step (ties the round trip to the RFC bytes as well)
-        let mut ref_s = r1_setup_s(c.suite, &m, &k.pk_r, &info, &k.ikm_e).map(|x| x.1);
+        // (RFC 9180 defines no output for an empty PSK in a PSK mode: round trip only, no R1 bytes)
+        let rfc_defined = !(c.mode.has_psk() && c.psk_len == 0);
+        let mut ref_s = if rfc_defined { r1_setup_s(c.suite, &m, &k.pk_r, &info, &k.ikm_e).map(|x| x.1) } else { None };
         for (i, &(pl, al)) in shapes.iter().enumerate() {
             let pt = bytes(c.fill, pl, 100 + i as u64, cfg.seed);
             let aad = bytes(c.fill, al, 200 + i as u64, cfg.seed);
